@@ -131,15 +131,31 @@ theorem ww_band (prev delta w : ℝ) (hw : 0 ≤ w) :
   · rw [max_eq_left (by linarith), min_eq_right (by linarith)]
   · rw [max_eq_right (by linarith), min_eq_left (by linarith)]
 
-/-- half-width `(3 c Γ² S / (2a))^{1/3}` -/
+/-- zero cost: zero half-width for *every* gamma, spot and risk aversion (`width.where(cost != 0, 0)`) -/
+theorem ww_width_zero_cost (gamma spot a : ℝ) : wwWidth gamma spot 0 a = 0 := by
+  simp [wwWidth]
+
+/-- with a cost the half-width is the computed power -/
+theorem ww_width_of_cost_ne_zero (gamma spot cost a : ℝ) (hc : cost ≠ 0) :
+    wwWidth gamma spot cost a = (cost * (3 / 2) * (gamma * gamma) * spot / a) ^ ((1 : ℝ) / 3) := by
+  have h : ¬ (cost ≤ 0 ∧ 0 ≤ cost) := fun h => hc (le_antisymm h.1 h.2)
+  unfold wwWidth
+  rw [if_neg h]
+  rfl
+
+/-- half-width `(3 c Γ² S / (2a))^{1/3}` (over the reals also at zero cost, where both sides are
+`0 = 0^{1/3}`) -/
 theorem ww_width_formula (gamma spot cost a : ℝ) :
     wwWidth gamma spot cost a = (3 * cost * gamma ^ 2 * spot / (2 * a)) ^ ((1 : ℝ) / 3) := by
-  unfold wwWidth
-  show (cost * (3 / 2) * (gamma * gamma) * spot / a) ^ ((1 : ℝ) / 3) = _
-  congr 1
-  by_cases ha : a = 0
-  · simp [ha]
-  · field_simp
+  by_cases hc : cost = 0
+  · subst hc
+    rw [ww_width_zero_cost]
+    simp
+  · rw [ww_width_of_cost_ne_zero _ _ _ _ hc]
+    congr 1
+    by_cases ha : a = 0
+    · simp [ha]
+    · field_simp
 
 theorem ww_width_nonneg (gamma spot cost a : ℝ) (hc : 0 ≤ cost) (hs : 0 ≤ spot) (ha : 0 < a) :
     0 ≤ wwWidth gamma spot cost a := by
@@ -150,9 +166,7 @@ theorem ww_width_nonneg (gamma spot cost a : ℝ) (hc : 0 ≤ cost) (hs : 0 ≤ 
 /-- zero cost: zero width, hence the Black–Scholes delta hedge -/
 theorem ww_zero_cost (prev delta gamma spot a : ℝ) :
     wwForward prev delta (wwWidth gamma spot 0 a) = delta := by
-  have : wwWidth gamma spot 0 a = 0 := by
-    rw [ww_width_formula]; simp
-  rw [this]
+  rw [ww_width_zero_cost]
   simp only [wwForward, torchClamp, sub_zero, add_zero]
   exact min_eq_right (le_max_right prev delta)
 
